@@ -76,7 +76,7 @@ CORPUS = [
 def cases(rng: random.Random, tier: str):
     out = [dict(c, seed=2000 + i) for i, c in enumerate(CORPUS)]
     out += K.load_corpus("C07")
-    n = 700 if tier == "quick" else 6000
+    n = 2000 if tier == "quick" else 6000
     for _ in range(n):
         big = rng.random() < (0.12 if tier == "quick" else 0.3)
         g = K.rand_admg(rng, 1, 5 if big else 4)
@@ -405,11 +405,11 @@ MANIFEST = {
              "unreachable); an answer reached with some fuel is not changed by more fuel; every leaf of a returned estimand is a "
              "single-world interventional term (C06 part). Soundness of the returned estimand and of Zero from lines 4-9 has NO "
              "theorem; on the current tree it is false (F10): the check decides it by correspondence with the real code plus "
-             "exact evaluation on sampled functional SCMs and lists the known wrong answers as open findings keyed by minimal "
-             "failing events. Termination of the line-6 recursion is by fuel in the model (never exhausted on any generated "
+             "exact evaluation on sampled functional SCMs, locates every wrong answer in the recursion of the real code and lists the "
+             "known defect patterns (F10/M1-M5, D1-D2) as open findings; a wrong step that shows none of them is a new violation. Termination of the line-6 recursion is by fuel in the model (never exhausted on any generated "
              "input), not proved."),
     "note": ("Trusted: Lean kernel + standard axioms; the hand-written models tied to the code by differential testing under "
              "all set-iteration orders; the reading convention of estimands stated in ASSUMPTIONS; sampled models (8 per "
-             "case). One small defect was fixed (line 9 marginalisation, 4295b26); 28 minimal wrong answers stay open."),
+             "case). One small defect was fixed (line 9 marginalisation, 4295b26); the F10 family stays open: 16 finding keys (failure kind x step of the blamed recursive call x known defect pattern), each with a minimal example."),
     "technique": "Lean 4 theorems (lines 2-3 over all functional SCMs, error taxonomy, vocabulary invariant) + differential correspondence + exact-rational functional-SCM oracle + shrunk known findings",
 }
